@@ -5,7 +5,7 @@ from ..gen import tree as treegen, req as reqgen
 from . import c07
 
 FAULTS = ["valid", "crasher", "mutant", "early-close", "rst-before-send", "rst-after-send", "rst-mid-request", "half-request-then-close", "idle-then-close", "oversized", "burst",
-          "rst-during-big-response", "close-without-reading-big-response", "never-read-then-close", "stall-all-workers-then-close", "half-close-then-read", "drip-then-close", "clock-jump"]
+          "rst-during-big-response", "close-without-reading-big-response", "never-read-then-close", "stall-all-workers-then-close", "half-close-then-read", "drip-then-close", "clock-jump", "queued-across-clock-jump"]
 # request handling that fails internally, over real sockets: the harness runs the real accept loop and pool with an
 # application that panics / errs / stalls when the request asks for it (vh srv)
 FAULTS_MIXED = ["handler-panic", "handler-panic-long-message", "handler-panic-non-string", "handler-err", "handler-panic-then-rst", "handler-slow-then-rst", "handler-slow-then-close", "handler-panic-burst"]
@@ -132,6 +132,34 @@ def step(srv, kind, rng, valid, crashers, mutants):
             except OSError:
                 pass
             s.close()
+        elif kind == "queued-across-clock-jump":
+            # every worker is parked on a silent peer, one more connection with a valid request waits in the queue, the clock
+            # moves on by more than a minute, the silent peers leave: the queued request is then served like any other
+            socks = []
+            for _ in range(srv.threads):
+                try:
+                    socks.append(srv.connect())
+                except OSError:
+                    break
+            time.sleep(0.1)
+            q = srv.connect(timeout=20)
+            q.sendall(rng.choice(valid[:3]).bytes())
+            time.sleep(0.05)
+            jumped = srv.advance_clock(rng.choice([31, 61, 3700]))
+            for s in socks:
+                s.close()
+            got = b""
+            try:
+                while True:
+                    b = q.recv(65536)
+                    if not b:
+                        break
+                    got += b
+            except (OSError, socket.timeout):
+                pass
+            q.close()
+            if jumped and not got:
+                return "unanswered"
         elif kind == "clock-jump":
             # time passes (a minute, an hour, more than a day) between two connections; no-op without the clock shim
             srv.advance_clock(rng.choice([61, 3700, 90000]))
@@ -414,6 +442,19 @@ def run(c):
             for s in servers.values():
                 s.cleanup()
         descriptor_exhaustion(c, t, rng, probe_file)
+        if not c.quick:
+            # real time, not virtual: 70 s without a single connection (timeouts inside the kernel do not see the clock shim)
+            for n in (2, 4):
+                srv = server.Server(t.root, threads=n, trace=True)
+                try:
+                    if srv.started:
+                        srv.request(("GET %s HTTP/1.1\r\nHost: x\r\n\r\n" % probe_file).encode())
+                        time.sleep(70)
+                        c.ev()
+                        c.cls("idle-70s", n)
+                        probe_after(c, srv, t, n, ["idle-for-70-seconds"], probe_file)
+                finally:
+                    srv.cleanup()
         mixed_histories(c, t, rng, valid, crashers, mutants, probe_file)
         engine_a(c, t, rng, valid, crashers, mutants)
     finally:
